@@ -25,7 +25,7 @@ PROPERTY = "C15"
 LEVEL = "exploration"
 ops.AVOID_NODE_OUTPUTS_ON_GRAPH_INPUTS = True
 TIERS = {
-    "quick": {"wall": 32, "optimize_wall": 8, "chunk": 60, "shrink_budget": 400, "shrink_wall": 60},
+    "quick": {"max_runs": 3000, "optimize_runs": 600, "wall": 420, "optimize_wall": 180, "chunk": 60, "shrink_budget": 400, "shrink_wall": 60},
     "thorough": {"wall": 600, "optimize_wall": 90, "chunk": 200, "shrink_budget": 800, "shrink_wall": 240},
 }
 RULE = (
